@@ -47,6 +47,10 @@ CLAIMED.update({
                 ref='DESIGN.md §3 C18'),
     'C20': dict(text='one clock / one machine cycle from every APU state: a stereo pair is emitted iff sound is on, outputs attached and the clock index is a multiple of 95 (index advances by one per clock, wraps once per emulated second); one takeSample from every state: both float32 samples in [0,1), exactly 0 when no status-on channel is routed to the side; 2-safety self-composition: states differing only in an unrouted channel give identical samples on that side',
                 ref='DESIGN.md §3 C20', note=NOTE + '; IEEE float32 semantics via the SMT FP theory; channel sends modelled as a bounded log'),
+    'C19': dict(text='per channel, one step from every APU state at every frame-sequencer phase against a reference written from the documented rules: every register write (status bit turns on only by a trigger with the DAC on and no sweep overflow; DAC-off write, power-off, trigger-time and periodic sweep overflow and length expiry turn it off; NRx1 loads 64-t/256-t; NRx4 extra length clock and trigger reload incl. max-1), the 256 Hz length clock, the sweep clock, a whole clock cycle (length moves only on a length clock), and the sequencer pacing lemma (step iff clock index multiple of 8192, step parity alternates across the second wrap and power toggles, so length clocks are 16384 clocks apart); the lemmas compose inductively to "on for exactly 64-t length clocks"',
+                ref='DESIGN.md §3 C19'),
+    'C21': dict(text='one clock of Audio.tickTimer from every APU state: square channels count down and step the duty index with period 4(2048-f), wave channel 2(2048-f) with the addressed nibble, noise channel d(r)*2^s for all NR43 with s<=13, and the shift-register update equals the documented LFSR step (15-bit and 7-bit) for all 2^16 states; bounded full-period unrollings for the highest frequencies',
+                ref='DESIGN.md §3 C21'),
 })
 
 NA_REASON = {
